@@ -6,9 +6,12 @@ import (
 	"github.com/vulcand/oxy/v2/zverif/c03"
 	"github.com/vulcand/oxy/v2/zverif/c14"
 	"github.com/vulcand/oxy/v2/zverif/c17"
+	"github.com/vulcand/oxy/v2/zverif/cb"
 )
 
 func init() {
+	parts["cb"] = cb.Run
+	replays["cb"] = cb.Replay
 	parts["c14"] = c14.Run
 	replays["c14"] = c14.Replay
 	parts["c03"] = c03.Run
